@@ -155,9 +155,10 @@ theorem blockAt_applyTxs (s : List (SKey × SVal)) (txs : List Tx) (j : Nat) : b
 
 /-! ### `verify_chain` is sound and complete for the pointwise link predicate -/
 
-/-- every block `1..=height` is present and passes `checkLink` against its stored predecessor -/
+/-- the genesis block is present and its `tx_root` matches its transactions; every block `1..=height`
+    is present and passes `checkLink` against its stored predecessor -/
 def ChainOK (C : Crypto) (reg : Option (List (List Nat × Nat))) (c : ChainSt) : Prop :=
-  (∃ g, blockAt c.store 0 = some g) ∧
+  (∃ g, blockAt c.store 0 = some g ∧ g.header.txRoot = txRoot C g.txs) ∧
   ∀ i, 1 ≤ i → i ≤ c.height →
     ∃ p b, blockAt c.store (i - 1) = some p ∧ blockAt c.store i = some b ∧ checkLink C reg p b = none
 
@@ -209,17 +210,20 @@ theorem verify_sound (C : Crypto) (reg : Option (List (List Nat × Nat))) (c : C
   | none => simp [hg] at hv
   | some g =>
     simp only [hg] at hv
-    refine ⟨⟨g, hg⟩, ?_⟩
-    intro i h1 h2
-    exact verifyFrom_sound C reg c.store c.height g 1 (by omega) (by simpa using hg) hv i h1 (by omega)
+    by_cases hroot : g.header.txRoot = txRoot C g.txs
+    · simp only [hroot, ne_eq, not_true_eq_false, if_false] at hv
+      refine ⟨⟨g, hg, hroot⟩, ?_⟩
+      intro i h1 h2
+      exact verifyFrom_sound C reg c.store c.height g 1 (by omega) (by simpa using hg) hv i h1 (by omega)
+    · simp [hroot] at hv
 
 theorem verify_complete (C : Crypto) (reg : Option (List (List Nat × Nat))) (c : ChainSt)
     (hok : ChainOK C reg c) : verifyChain C reg c = none := by
   unfold verifyChain
   by_cases h0 : c.height = 0
   · simp [h0]
-  · obtain ⟨⟨g, hg⟩, hall⟩ := hok
-    simp only [h0, if_false, hg]
+  · obtain ⟨⟨g, hg, hroot⟩, hall⟩ := hok
+    simp only [h0, if_false, hg, hroot, ne_eq, not_true_eq_false]
     exact verifyFrom_complete C reg c.store c.height g 1 (by omega) (by simpa using hg)
       (fun i h1 h2 => hall i h1 (by omega))
 
@@ -236,7 +240,7 @@ theorem inv_init (C : Crypto) (reg : Option (List (List Nat × Nat))) (s : List 
   have hb : blockAt (initChain C s p ts).store 0 = some (genesisBlock C p ts) := by
     simp only [initChain]
     rw [blockAt_sput_ne _ _ _ _ (by simp), blockAt_sput_same]
-  refine ⟨⟨⟨_, hb⟩, ?_⟩, ?_, ?_⟩
+  refine ⟨⟨⟨_, hb, rfl⟩, ?_⟩, ?_, ?_⟩
   · intro i h1 h2
     simp [initChain] at h2
     omega
@@ -318,8 +322,8 @@ theorem inv_append (C : Crypto) (reg : Option (List (List Nat × Nat))) (c c' : 
     have := hts t htip
     simp [Nat.not_lt.mpr this]
   refine ⟨⟨?_, ?_⟩, ?_, ?_⟩
-  · obtain ⟨g, hg⟩ := hinv.ok.1
-    exact ⟨g, by rw [hold 0 (Nat.zero_le _)]; exact hg⟩
+  · obtain ⟨g, hg, hroot⟩ := hinv.ok.1
+    exact ⟨g, by rw [hold 0 (Nat.zero_le _)]; exact hg, hroot⟩
   · intro i h1 h2
     simp only at h2
     by_cases hi : i = c.height + 1
@@ -477,5 +481,147 @@ theorem append_eq (C : Crypto) (reg : Option (List (List Nat × Nat))) (c : Chai
   unfold append appendCheck
   simp only
   (repeat' split) <;> simp_all
+
+/-! ### `merkle_root` / `compute_tx_root` are injective on lists of equal length -/
+
+/-- SHA-256 digests all have one length (32 bytes) -/
+def HashLen (C : Crypto) (n : Nat) : Prop := ∀ x, (C.hash x).length = n
+
+/-- the byte strings hashed by one level of `merkle_root` -/
+def levelInputs : List (List Nat) → List (List Nat)
+  | [] => []
+  | [a] => [a ++ a]
+  | a :: b :: rest => (a ++ b) :: levelInputs rest
+
+/-- the byte strings hashed by the whole `while` loop -/
+def loopInputs (C : Crypto) : Nat → List (List Nat) → List (List Nat)
+  | _, [] => []
+  | _, [_] => []
+  | 0, _ :: _ => []
+  | fuel + 1, level => levelInputs level ++ loopInputs C fuel (merkleLevel C level)
+
+/-- every byte string `compute_tx_root` feeds to SHA-256: the serialised transactions and all inner pairs -/
+def txRootInputs (C : Crypto) (txs : List Tx) : List (List Nat) :=
+  txs.map Tx.enc ++ loopInputs C txs.length (txs.map fun t => C.hash t.enc)
+
+theorem merkleLevel_length (C : Crypto) : ∀ (l : List (List Nat)), (merkleLevel C l).length = (l.length + 1) / 2
+  | [] => rfl
+  | [a] => by simp [merkleLevel]
+  | a :: b :: rest => by
+    simp only [merkleLevel, List.length_cons, merkleLevel_length C rest]
+    omega
+
+theorem merkleLevel_allLen (C : Crypto) (n : Nat) (hl : HashLen C n) :
+    ∀ (l : List (List Nat)), ∀ x ∈ merkleLevel C l, x.length = n
+  | [] => by simp [merkleLevel]
+  | [a] => by simp [merkleLevel, hl _]
+  | a :: b :: rest => by
+    intro x hx
+    simp only [merkleLevel, List.mem_cons] at hx
+    rcases hx with rfl | hx
+    · exact hl _
+    · exact merkleLevel_allLen C n hl rest x hx
+
+/-- one level is injective on lists of equal length whose entries have one length -/
+theorem merkleLevel_inj (C : Crypto) (occ : List Nat → Prop) (hinj : HashInjOn C occ) (n : Nat) :
+    ∀ (xs ys : List (List Nat)), xs.length = ys.length → (∀ x ∈ xs, x.length = n) → (∀ y ∈ ys, y.length = n) →
+      (∀ z ∈ levelInputs xs, occ z) → (∀ z ∈ levelInputs ys, occ z) →
+      merkleLevel C xs = merkleLevel C ys → xs = ys
+  | [], [], _, _, _, _, _, _ => rfl
+  | [], _ :: _, h, _, _, _, _, _ => by simp at h
+  | _ :: _, [], h, _, _, _, _, _ => by simp at h
+  | [a], [a'], _, hx, hy, ox, oy, h => by
+    simp only [merkleLevel, List.cons.injEq, and_true] at h
+    have := hinj _ _ (ox _ (by simp [levelInputs])) (oy _ (by simp [levelInputs])) h
+    have hl : a.length = a'.length := by rw [hx a (by simp), hy a' (by simp)]
+    rw [(List.append_inj this hl).1]
+  | [_], _ :: _ :: _, h, _, _, _, _, _ => by simp at h
+  | _ :: _ :: _, [_], h, _, _, _, _, _ => by simp at h
+  | a :: b :: r, a' :: b' :: r', hlen, hx, hy, ox, oy, h => by
+    simp only [merkleLevel, List.cons.injEq] at h
+    have e := hinj _ _ (ox _ (by simp [levelInputs])) (oy _ (by simp [levelInputs])) h.1
+    have hl : a.length = a'.length := by rw [hx a (by simp), hy a' (by simp)]
+    have e' := List.append_inj e hl
+    have ih := merkleLevel_inj C occ hinj n r r' (by simpa using hlen)
+      (fun x hx' => hx x (by simp [hx'])) (fun y hy' => hy y (by simp [hy']))
+      (fun z hz => ox z (by simp [levelInputs, hz])) (fun z hz => oy z (by simp [levelInputs, hz])) h.2
+    rw [e'.1, e'.2, ih]
+
+theorem merkleLoop_inj (C : Crypto) (occ : List Nat → Prop) (hinj : HashInjOn C occ) (n : Nat) (hl : HashLen C n) :
+    ∀ (fuel : Nat) (xs ys : List (List Nat)), xs.length = ys.length → xs.length ≤ fuel →
+      (∀ x ∈ xs, x.length = n) → (∀ y ∈ ys, y.length = n) →
+      (∀ z ∈ loopInputs C fuel xs, occ z) → (∀ z ∈ loopInputs C fuel ys, occ z) →
+      merkleLoop C fuel xs = merkleLoop C fuel ys → xs = ys := by
+  intro fuel
+  induction fuel with
+  | zero =>
+    intro xs ys hlen hf _ _ _ _ _
+    have : xs = [] := by cases xs <;> simp_all
+    subst this
+    cases ys <;> simp_all
+  | succ fuel ih =>
+    intro xs ys hlen hf hx hy ox oy h
+    match xs, ys, hlen with
+    | [], [], _ => rfl
+    | [a], [a'], _ => simpa [merkleLoop] using h
+    | a :: b :: r, a' :: b' :: r', hlen =>
+      have e1 : merkleLoop C (fuel + 1) (a :: b :: r) = merkleLoop C fuel (merkleLevel C (a :: b :: r)) := by
+        first | rfl | (rw [merkleLoop] <;> simp)
+      have e2 : merkleLoop C (fuel + 1) (a' :: b' :: r') = merkleLoop C fuel (merkleLevel C (a' :: b' :: r')) := by
+        first | rfl | (rw [merkleLoop] <;> simp)
+      have i1 : loopInputs C (fuel + 1) (a :: b :: r) = levelInputs (a :: b :: r) ++ loopInputs C fuel (merkleLevel C (a :: b :: r)) := by
+        first | rfl | (rw [loopInputs] <;> simp)
+      have i2 : loopInputs C (fuel + 1) (a' :: b' :: r') = levelInputs (a' :: b' :: r') ++ loopInputs C fuel (merkleLevel C (a' :: b' :: r')) := by
+        first | rfl | (rw [loopInputs] <;> simp)
+      rw [e1, e2] at h
+      rw [i1] at ox
+      rw [i2] at oy
+      have hlv := ih (merkleLevel C (a :: b :: r)) (merkleLevel C (a' :: b' :: r'))
+        (by rw [merkleLevel_length, merkleLevel_length, hlen])
+        (by rw [merkleLevel_length]; simp only [List.length_cons] at hf ⊢; omega)
+        (merkleLevel_allLen C n hl _) (merkleLevel_allLen C n hl _)
+        (fun z hz => ox z (List.mem_append_right _ hz)) (fun z hz => oy z (List.mem_append_right _ hz)) h
+      exact merkleLevel_inj C occ hinj n _ _ hlen hx hy
+        (fun z hz => ox z (List.mem_append_left _ hz)) (fun z hz => oy z (List.mem_append_left _ hz)) hlv
+
+theorem Tx.enc_inj (a b : Tx) (h : a.enc = b.enc) : a = b := by
+  cases a <;> cases b <;> simp_all [Tx.enc]
+
+/-- `compute_tx_root` is injective on transaction lists of EQUAL length -/
+theorem txRoot_inj_of_length_eq (C : Crypto) (occ : List Nat → Prop) (hinj : HashInjOn C occ) (n : Nat) (hl : HashLen C n)
+    (txs txs' : List Tx) (hlen : txs.length = txs'.length)
+    (o1 : ∀ z ∈ txRootInputs C txs, occ z) (o2 : ∀ z ∈ txRootInputs C txs', occ z)
+    (h : txRoot C txs = txRoot C txs') : txs = txs' := by
+  match txs, txs', hlen with
+  | [], [], _ => rfl
+  | t :: r, t' :: r', hlen =>
+    have h' : merkleLoop C (t :: r).length ((t :: r).map fun t => C.hash t.enc) =
+        merkleLoop C (t :: r).length ((t' :: r').map fun t => C.hash t.enc) := by
+      have := h
+      simp only [txRoot, merkleRoot, List.length_map] at this
+      rw [← hlen] at this
+      exact this
+    simp only [txRootInputs] at o1 o2
+    have hm := merkleLoop_inj C occ hinj n hl (t :: r).length ((t :: r).map fun t => C.hash t.enc)
+      ((t' :: r').map fun t => C.hash t.enc) (by simp only [List.length_map]; exact hlen) (by simp)
+      (by intro x hx; simp only [List.mem_map] at hx; obtain ⟨_, _, rfl⟩ := hx; exact hl _)
+      (by intro x hx; simp only [List.mem_map] at hx; obtain ⟨_, _, rfl⟩ := hx; exact hl _)
+      (fun z hz => o1 z (List.mem_append_right _ hz))
+      (fun z hz => o2 z (List.mem_append_right _ (by rw [← hlen]; exact hz))) h'
+    -- leaves equal → encodings equal → transactions equal
+    have : ∀ (a b : List Tx), (∀ z ∈ a.map Tx.enc, occ z) → (∀ z ∈ b.map Tx.enc, occ z) →
+        a.map (fun t => C.hash t.enc) = b.map (fun t => C.hash t.enc) → a = b := by
+      intro a
+      induction a with
+      | nil => intro b _ _ hb; cases b <;> simp_all
+      | cons x a ih =>
+        intro b oa ob hb
+        cases b with
+        | nil => simp at hb
+        | cons y b =>
+          simp only [List.map_cons, List.cons.injEq] at hb
+          have := Tx.enc_inj _ _ (hinj _ _ (oa _ (by simp)) (ob _ (by simp)) hb.1)
+          rw [this, ih b (fun z hz => oa z (by simp at hz ⊢; exact Or.inr hz)) (fun z hz => ob z (by simp at hz ⊢; exact Or.inr hz)) hb.2]
+    exact this _ _ (fun z hz => o1 z (List.mem_append_left _ hz)) (fun z hz => o2 z (List.mem_append_left _ hz)) hm
 
 end Neumann.Chain
